@@ -293,6 +293,21 @@ func (w *World) watcherTask(t *simcore.Task) {
 		} else {
 			qs := w.candidateQueries(tc, st)
 			q := qs[c.Choose(len(qs))]
+			if c.Choose(2) == 0 {
+				// prefer watches on inner nodes: prefix and list queries with several results
+				var big []Query
+				for _, x := range qs {
+					if x.Q == QPrefix || x.Q == QList {
+						if r, _ := st.eval(x); len(r) >= 2 && len(r) < len(st.Objs) {
+							big = append(big, x)
+						}
+					}
+				}
+				if len(big) > 0 {
+					q = big[c.Choose(len(big))]
+					w.probe("watch-on-inner-node")
+				}
+			}
 			var got []MObj
 			var ch <-chan struct{}
 			if !w.guard("C06", q.String(), func() { got, ch = realQuery(tc, rtxn, q, 0) }) {
